@@ -9,9 +9,9 @@ decided for all byte values of the path.  Operand order, size suffixes, sigils, 
 reversal are all exercised through this round trip: a rendering that denotes another instruction re-assembles to
 other bytes.
 Quantifier.  The property's round trip can only hold for canonical encodings (no meaning-free prefix, no ignored
-bit, the form an assembler picks): a miss is reported only if GNU as, given the concrete rendering at the solver's
-witness, produces exactly the original bytes (then the text is a valid spelling of a canonical encoding and miasmX's
-own parser fails to reproduce it), or if miasmX's parser raises on its own rendering.  Rendering crashes are C10's.
+bit, the form an assembler picks): a miss is reported only if the original bytes at the solver's witness are the
+encoding the reference assembler produces - objdump's text of the bytes, assembled by GNU as, gives the bytes back
+(a criterion that does not look at miasmX's rendering, which may be the wrong part).  Rendering crashes are C10's.
 Arbiter level (witnesses, labelled so): for instructions a compiler emits (no raw relative-branch displacement, no
 absolute numeric memory operand) the concrete rendering at the path witness - one per operand shape - must be accepted
 by GNU as in the matching syntax mode and assemble to an encoding that objdump reads as the same instruction as the
@@ -172,12 +172,15 @@ def run_rt(job, res, which='C09'):
         for r in misses:
             uniq.setdefault((r[1], shape_of(r[3], False)), r)
         ms = list(uniq.values())[:600]
-        refs = gas.reference([canon_text(r[3], att) for r in ms], att=att, want_bytes=True)
+        # canonical = the encoding the reference assembler produces for the instruction: objdump's own text of the original
+        # bytes, assembled by GNU as, must give the original bytes back (independent of miasmX's rendering)
+        ods = OD.disassemble([bytes(r[4]) for r in ms])
+        texts = [(od[1] if od is not None and od[0] == len(r[4]) and '(bad)' not in od[1] else 'nop') for od, r in zip(ods, ms)]
+        refs = gas.reference([objdump_to_gas(t) for t in texts], att=False, want_bytes=True)
         reported = set()
-        for r, ref in zip(ms, refs):
-            if ref is None:
+        for r, ref, od in zip(ms, refs, ods):
+            if od is None or od[0] != len(r[4]) or '(bad)' in od[1] or ref is None:
                 res['outside_noncanonical'] = res.get('outside_noncanonical', 0) + 1
-                res['gas_rejects_rendering'] = res.get('gas_rejects_rendering', 0) + 1
                 continue
             if bytes(ref[2]) != bytes(r[4]):
                 res['outside_noncanonical'] = res.get('outside_noncanonical', 0) + 1
@@ -266,6 +269,23 @@ def shape_of(txt, classes):
     return ''.join(ops.split())
 
 
+def objdump_to_gas(t):
+    """objdump's Intel text as GNU as input (relative branch targets are printed as absolute addresses of the slot: not re-assembled)"""
+    import re
+    t = re.sub(r'\s*[#<].*$', '', t).strip()
+    return t
+
+
+def is_canonical(b):
+    od = OD.disassemble([bytes(b)])[0]
+    if od is None or od[0] != len(b) or '(bad)' in od[1]:
+        return None
+    ref = gas.reference([objdump_to_gas(od[1])], att=False, want_bytes=True)[0]
+    if ref is None:
+        return None
+    return bytes(ref[2]) == bytes(b)
+
+
 def canon_text(txt, att):
     """miasmX pads the mnemonic column; GNU as does not care"""
     return ' '.join(txt.split())
@@ -305,10 +325,11 @@ try:
 except Exception as ex:
     print('the parser raises', type(ex).__name__, ex); miss = True
 if miss:
-    ref = gas.reference([' '.join(txt.split())], att=att, want_bytes=True)[0]
-    print('GNU as:', None if ref is None else bytes(ref[2]).hex())
-    if ref is not None and bytes(ref[2]) == b: bad = True
-    else: print('outside the quantifier: GNU as does not read the rendering as exactly these bytes (non-canonical encoding or unsupported text)')
+    from vf.checks import c09
+    can = c09.is_canonical(b)
+    print('canonical encoding (GNU as reproduces the bytes from objdump\'s text):', can)
+    if can: bad = True
+    else: print('outside the quantifier: not the encoding the reference assembler produces (or not decodable by the reference)')
 print(%(prop)r, 'replay:', 'VIOLATED' if bad else 'holds')
 sys.exit(1 if bad else 0)
 '''
